@@ -37,6 +37,9 @@ mod tracing;
 mod write_dead_band_request;
 
 mod app_options;
+#[cfg(all(test, dnp3_verif))]
+#[path = "/verif/harness_ffi/mod.rs"]
+mod verif_harness_ffi;
 #[allow(
     dead_code,
     clippy::derive_partial_eq_without_eq,
